@@ -83,11 +83,14 @@ class Kinds:
         return "*" + x if self.k.get(x, "ref") == "ref" else x
 
 
+CONST_RENDER = [str]     # replaced temporarily by rust_program_text(cmap=...)
+
+
 def rust_term(t, kinds, in_expr=False):
     if t[0] == "v":
         return kinds.use(t[1]) if in_expr else t[1]
     if t[0] == "c":
-        return str(t[1])
+        return CONST_RENDER[0](t[1])
     if t[0] == "w":
         return "_"
     if t[0] == "f":
@@ -178,11 +181,17 @@ def rust_decl(name, arity, kind, ty="i32"):
     return "relation %s(%s);" % (name, cols)
 
 
-def rust_program_text(p, ty="i32"):
-    """the text between the braces of ascent!{ ... }"""
+def rust_program_text(p, ty="i32", cmap=None):
+    """the text between the braces of ascent!{ ... }; cmap renders constants (column type changes)"""
     lines = list(p.get("attrs", []))
     lines += [rust_decl(n, a, k, ty) for (n, a, k) in p["rels"]]
-    lines += [rust_rule(r) for r in p["rules"]]
+    old = CONST_RENDER[0]
+    if cmap:
+        CONST_RENDER[0] = cmap
+    try:
+        lines += [rust_rule(r) for r in p["rules"]]
+    finally:
+        CONST_RENDER[0] = old
     return "\n".join(lines)
 
 
@@ -291,6 +300,9 @@ def parse_cond(c, fresh):
             if inner[0] == "c":
                 raise ParseError("constant in a desugared equality: %r" % c["expr"])
             return [("let", t, inner[1], inner[2]), ("if", "eq", [m.group(1), t])]
+        m = re.fullmatch(r"([A-Za-z_]\w*)==([A-Za-z_]\w*)", s)
+        if m:   # repeated variable (both references)
+            return [("if", "eq", [m.group(1), m.group(2)])]
         mm = _match(_PRED_RX, c["expr"])
         if mm:
             return [("if", mm[0], mm[1])]
